@@ -233,6 +233,7 @@ def filtermap_clauses(run, ret, n, item, fname, first_args, want_kwargs, bundle,
 
 @register
 class RefineDropletsBranches(Contract):
+    prefer_variants = {"droplets.image_analysis:locate_droplets": "per-item", "droplets.image_analysis:refine_droplet": "per-item"}
     """refine_droplets(field, candidates, num_processes=p, **options) == [r for c in candidates if (r := refine_droplet(field, c,
     **options)) is not None] for every p"""
     key = f"{IA}:refine_droplets"
@@ -276,6 +277,7 @@ class ETCCtor(SObj):
 
 @register
 class FromStorageBranches(Contract):
+    prefer_variants = {"droplets.image_analysis:locate_droplets": "per-item", "droplets.image_analysis:refine_droplet": "per-item"}
     """EmulsionTimeCourse.from_storage(storage, num_processes=p, refine=r, **options): frame k of the result is
     locate_droplets(frame k of the storage, refine=r, **options), paired with storage.times, for every p"""
     key = f"{EM}:EmulsionTimeCourse.from_storage"
